@@ -244,3 +244,79 @@ func (q *Quote) Proto(poison int) *pb.QuoteV4 {
 	}
 	return m
 }
+
+// SetRegion overwrites one of the fixed-layout regions of the structured quote
+// from raw bytes (the inverse of the emitters above, for the regions C01 names).
+func (q *Quote) SetRegion(name string, b []byte) {
+	switch name {
+	case "header":
+		q.Version = binary.LittleEndian.Uint16(b[0:2])
+		q.AKType = binary.LittleEndian.Uint16(b[2:4])
+		q.TeeType = binary.LittleEndian.Uint32(b[4:8])
+		copy(q.PceSvn[:], b[8:10])
+		copy(q.QeSvn[:], b[10:12])
+		copy(q.QEVendor[:], b[12:28])
+		copy(q.UserData[:], b[28:48])
+	case "body":
+		o := 0
+		take := func(dst []byte) { copy(dst, b[o:o+len(dst)]); o += len(dst) }
+		take(q.TeeTcbSvn[:])
+		take(q.MrSeam[:])
+		take(q.MrSignerSeam[:])
+		take(q.SeamAttr[:])
+		take(q.TdAttr[:])
+		take(q.Xfam[:])
+		take(q.MrTd[:])
+		take(q.MrConfigID[:])
+		take(q.MrOwner[:])
+		take(q.MrOwnerConfig[:])
+		for i := range q.Rtmr {
+			take(q.Rtmr[i][:])
+		}
+		take(q.ReportData[:])
+	case "sig":
+		copy(q.Sig[:], b)
+	case "ak":
+		copy(q.AK[:], b)
+	case "qereport":
+		o := 0
+		take := func(dst []byte) { copy(dst, b[o:o+len(dst)]); o += len(dst) }
+		take(q.QE.CPUSVN[:])
+		q.QE.MiscSelect = binary.LittleEndian.Uint32(b[o : o+4])
+		o += 4
+		take(q.QE.Rsv1[:])
+		take(q.QE.Attributes[:])
+		take(q.QE.MrEnclave[:])
+		take(q.QE.Rsv2[:])
+		take(q.QE.MrSigner[:])
+		take(q.QE.Rsv3[:])
+		q.QE.IsvProdID = binary.LittleEndian.Uint16(b[o : o+2])
+		q.QE.IsvSvn = binary.LittleEndian.Uint16(b[o+2 : o+4])
+		o += 4
+		take(q.QE.Rsv4[:])
+		take(q.QE.ReportData[:])
+	case "qesig":
+		copy(q.QESig[:], b)
+	case "auth":
+		q.Auth = append([]byte(nil), b...)
+	case "chain":
+		q.Chain = append([]byte(nil), b...)
+	case "extra":
+		q.Extra = append([]byte(nil), b...)
+	default:
+		panic("world: SetRegion " + name)
+	}
+}
+
+// FromRaw rebuilds a structured quote from mutated raw bytes whose region sizes
+// are those of regs (i.e. no length field was changed).
+func (q *Quote) FromRaw(raw []byte, regs []Region) *Quote {
+	c := q.Clone()
+	for _, rg := range regs {
+		switch rg.Name {
+		case "header", "body", "sig", "ak", "qereport", "qesig", "auth", "chain", "extra":
+			c.SetRegion(rg.Name, raw[rg.Off:rg.Off+rg.Len])
+		}
+	}
+	return c
+}
